@@ -326,6 +326,11 @@ func findResultKeys(r resultList) ([]key, error) {
 		case resultSingle:
 			keys = append(keys, key{t: innerResult.Type, name: innerResult.Name})
 		case resultGrouped:
+			if innerResult.Flatten {
+				// A decorated group is stored and handed out as one slice;
+				// flatten would file that slice under its element type.
+				return nil, newErrInvalidInput("cannot use flatten when decorating a value group: decorate the entire value group instead", nil)
+			}
 			if innerResult.Type.Kind() != reflect.Slice {
 				return nil, newErrInvalidInput("decorating a value group requires decorating the entire value group, not a single value", nil)
 			}
